@@ -4,7 +4,23 @@ from vlib import runchan as R
 from vlib import semgen as S
 from vlib.runner import PropCheck, Case
 
-CORPUS = [
+def _cross_loops():
+    """a loop whose body calls a procedure that RETURNs from inside a loop of its own, then BREAKs / CONTINUEs: every pairing
+    of the three loop kinds (the callee's loop state must not leak into the caller's loop)"""
+    inner = {"times": "REPEAT 5 TIMES {\nk <- k + 1\nIF (k == t) {\nRETURN TRUE\n}\n}",
+             "until": "REPEAT UNTIL (k > 5) {\nk <- k + 1\nIF (k == t) {\nRETURN TRUE\n}\n}",
+             "each": "FOR EACH v IN [1, 2, 3, 4, 5] {\nk <- v\nIF (v == t) {\nRETURN TRUE\n}\n}"}
+    outer = {"times": ("REPEAT 6 TIMES {", "}"), "until": ("REPEAT UNTIL (n >= 6) {", "}"), "each": ("FOR EACH w IN [1, 2, 3, 4, 5, 6] {", "}")}
+    out = []
+    for ik, ib in inner.items():
+        for ok, (oh, ot) in outer.items():
+            for ctl in ("CONTINUE", "BREAK"):
+                out.append("PROCEDURE hit(t) {\nk <- 0\n%s\nRETURN FALSE\n}\nn <- 0\n%s\nn <- n + 1\nIF (hit(n) AND (n == 2 OR n == 4)) {\n%s\n}\n"
+                           "DISPLAY(n)\n%s\nDISPLAY(\"n = \" + n)\n" % (ib, oh, ctl, ot))
+    return out
+
+
+CORPUS = _cross_loops() + [
     "REPEAT 2.9 TIMES { DISPLAY(1) }\nREPEAT -1 TIMES { DISPLAY(2) }\nREPEAT 0.5 TIMES { DISPLAY(3) }\n",
     "i <- 0\nREPEAT UNTIL (i >= 3) { i <- i + 1\nIF (i == 2) { CONTINUE }\nDISPLAY(i) }\n",
     "FOR EACH x IN [1,2,3] { IF (x == 2) { BREAK }\nDISPLAY(x) }\nDISPLAY(x)\n",
